@@ -120,6 +120,7 @@ type Worker struct {
 	inMerge    int
 	eraser     map[string]map[string]bool
 	eraserSeq  int
+	probeIn    bool
 	sql        *sqlDB
 	sqlCache   map[string]*sqlStmt
 	sqlRows    map[*Obj]*sqlRowsState
@@ -459,6 +460,7 @@ func (w *Worker) RunPath(entry *ssa.Function, prefix []Decision) (res *PathResul
 	w.locks = map[string]int{}
 	w.eraser = map[string]map[string]bool{}
 	w.eraserSeq = 0
+	w.probeIn = false
 	w.sql = nil
 	w.sqlRows = map[*Obj]*sqlRowsState{}
 	if w.sqlCache == nil {
@@ -529,6 +531,9 @@ func (w *Worker) panicString(v Value) string {
 
 func (w *Worker) reportViolation(kind, msg, pos string, negCond *term.Term, known string) {
 	v := Violation{Msg: msg, Pos: pos, Kind: kind, Known: known, Prefix: append([]Decision(nil), w.decisions...)}
+	if w.P.Probe != "" && w.probeIn {
+		v.Known = w.P.Probe
+	}
 	if w.S != nil {
 		m, order, ok := w.modelWith(negCond)
 		if ok {
